@@ -26,15 +26,53 @@ class Inconclusive(Exception):
 
 
 # --------------------------------------------------------------------------- encodings
+def _named_leaves(obj, prefix):
+    """(name, leaf) pairs in tree_flatten order, with dataclass field names where liesel flattens `__dict__`"""
+    import dataclasses
+    if isinstance(obj, dict):
+        out = []
+        for k in sorted(obj):
+            out += _named_leaves(obj[k], f"{prefix}_{k}")
+        return out
+    if isinstance(obj, (list, tuple)) and not hasattr(obj, "_fields"):
+        out = []
+        for i, v in enumerate(obj):
+            out += _named_leaves(v, f"{prefix}_{i}")
+        return out
+    if hasattr(obj, "_fields"):       # named tuple
+        out = []
+        for k in obj._fields:
+            out += _named_leaves(getattr(obj, k), f"{prefix}_{k}")
+        return out
+    if dataclasses.is_dataclass(obj) and not isinstance(obj, type):
+        out = []
+        for k in sorted(vars(obj)):
+            out += _named_leaves(vars(obj)[k], f"{prefix}_{k}")
+        return out
+    if obj is None:
+        return []
+    return [(prefix, obj)]
+
+
 def symlike(example, prefix, sort=None, positive=False):
     """pytree of object arrays with one z3 constant per float scalar of `example`;
     integer / bool leaves stay concrete"""
     paths = jax.tree_util.tree_flatten_with_path(example)[0]
     tree = jax.tree_util.tree_structure(example)
+    named = None
+    try:
+        nl = _named_leaves(example, prefix)
+        if len(nl) == len(paths) and all(a is b for (_, a), (_, b) in zip(nl, paths)):
+            named = [n for n, _ in nl]
+    except Exception:
+        named = None
     leaves = []
-    for p, a in paths:
+    for k, (p, a) in enumerate(paths):
         a = np.asarray(a)
-        nm = prefix + "".join(ch if ch.isalnum() else "_" for ch in jax.tree_util.keystr(p)).strip("_")
+        if named is not None:
+            nm = "".join(ch if ch.isalnum() else "_" for ch in named[k]).strip("_")
+        else:
+            nm = prefix + "".join(ch if ch.isalnum() else "_" for ch in jax.tree_util.keystr(p)).strip("_")
         if a.dtype.kind in "iub":
             leaves.append(a)
         else:
